@@ -26,6 +26,9 @@ structure S where
   keys : List Nat := []
   st : St := St.empty
   h : HSt := { mem := none, disk := none }
+  /-- further hash-prefix filters, by slot number -/
+  hs : Tab HSt := []
+  ss : SSt := { gen := { mem := none, disk := none }, yt := { mem := none, disk := none } }
 
 def S.env (s : S) : Env :=
   { len := look s.len 0, idx := look s.idx none, svc := look s.svc none,
@@ -57,6 +60,9 @@ def parseRaw (t : String) : RawEntry × Nat :=
   | ["o", num, hex, ue, up, u] =>
     ({ null := false, key := hexBytes hex.toList, urlEmpty := bool! ue, urlParses := bool! up,
        url := nat! u }, nat! num)
+  | ["t", num, hex, ue, up, u] =>
+    ({ null := false, key := hexBytes hex.toList, urlEmpty := bool! ue, urlParses := bool! up,
+       url := nat! u, typeErr := true }, nat! num)
   | _ => ({ null := true, key := [], urlEmpty := true, urlParses := false, url := 0 }, 0)
 
 def numOf (tbl : List (List Nat × Nat)) (k : List Nat) : Nat :=
@@ -112,12 +118,17 @@ def step (s : S) : List String → S × String
   | ["cfg", im, rm, sm, se, ki, nc, rr] =>
     ({ cfg := { idxMax := nat! im, rlMax := nat! rm, svcMax := nat! sm, svcEnabled := bool! se,
                 keepInvalid := bool! ki, svcNilCheck := bool! nc, rejectReserved := bool! rr } }, "ok")
+  | ["cfg", im, rm, sm, se, ki, nc, rr, ld] =>
+    ({ cfg := { idxMax := nat! im, rlMax := nat! rm, svcMax := nat! sm, svcEnabled := bool! se,
+                keepInvalid := bool! ki, svcNilCheck := bool! nc, rejectReserved := bool! rr,
+                lenientDecode := bool! ld } }, "ok")
   -- an index document as decoded, in document order: the model sorts and validates it itself
   | "rawdoc" :: c :: jsonOk :: rest =>
     let ps := rest.map parseRaw
     let tbl := ps.map fun p => (p.1.key, p.2)
     let es := loadRaw s.cfg.rejectReserved (numOf tbl) (ps.map (·.1))
-    ({ s with idx := (nat! c, if bool! jsonOk then some es else none) :: s.idx,
+    let decoded := (decodeDoc s.cfg.lenientDecode (ps.map (·.1))).isSome
+    ({ s with idx := (nat! c, if bool! jsonOk && decoded then some es else none) :: s.idx,
               keys := es.foldl (fun ks e => insertKey ks e.key) s.keys }, "ok")
   -- a restart with another configuration: the size limits change, the state stays
   | ["max", im, rm, sm] =>
@@ -157,7 +168,34 @@ def step (s : S) : List String → S × String
     let s' := { s with st := normSt s.keys res.1, fresh := [], resp := [] }
     (s', showSt s' (if !(addUntilCancelled s R (nat! u)) && refreshPanics s.env s.cfg s.st R then "p"
                     else showB res.2))
-  | ["restart"] => ({ s with st := restart s.st }, "ok")
+  -- a whole round of `Default.refresh` with the safe-search filters
+  | ["ssround", acc, idxFresh, idxResp, svcFresh, svcResp, mx, gOn, gFresh, gResp, yOn, yFresh, yResp] =>
+    let R : Round := { acceptStale := bool! acc, idxFresh := bool! idxFresh,
+                       idxResp := parseResp idxResp, fresh := look s.fresh false,
+                       resp := look s.resp .getErr, svcFresh := bool! svcFresh,
+                       svcResp := parseResp svcResp }
+    let SR : SRound := { max := nat! mx, genOn := bool! gOn, genFresh := bool! gFresh,
+                         genResp := parseResp gResp, ytOn := bool! yOn, ytFresh := bool! yFresh,
+                         ytResp := parseResp yResp }
+    let res := refreshFull s.env s.cfg s.st s.ss R SR
+    let s' := { s with st := normSt s.keys res.1.1, ss := res.1.2, fresh := [], resp := [] }
+    (s', showSt s' (showB res.2) ++ " ssg=" ++ showO s'.ss.gen.mem ++ "/" ++ showO s'.ss.gen.disk ++
+      " ssy=" ++ showO s'.ss.yt.mem ++ "/" ++ showO s'.ss.yt.disk)
+  | ["disk", "ssg", c] => ({ s with ss := { s.ss with gen := { s.ss.gen with disk := optNat c } } }, "ok")
+  | ["disk", "ssy", c] => ({ s with ss := { s.ss with yt := { s.ss.yt with disk := optNat c } } }, "ok")
+  -- one of several hash-prefix filters
+  | ["hashs", slot, max, acc, fresh, r] =>
+    let h0 := look s.hs { mem := none, disk := none } (nat! slot)
+    let res := refreshHash s.env (nat! max) (bool! acc) h0 (bool! fresh) (parseResp r)
+    ({ s with hs := (nat! slot, res.1) :: s.hs },
+      "ok=" ++ showB res.2 ++ " mem=" ++ showO res.1.mem ++ " disk=" ++ showO res.1.disk)
+  | ["disk", "hashs", slot, c] =>
+    let h0 := look s.hs { mem := none, disk := none } (nat! slot)
+    ({ s with hs := (nat! slot, { h0 with disk := optNat c }) :: s.hs }, "ok")
+  | ["restart"] =>
+    ({ s with st := restart s.st,
+              ss := { gen := { s.ss.gen with mem := none }, yt := { s.ss.yt with mem := none } },
+              hs := s.hs.map fun p => (p.1, { p.2 with mem := none }) }, "ok")
   | ["hash", max, acc, fresh, r] =>
     let res := refreshHash s.env (nat! max) (bool! acc) s.h (bool! fresh) (parseResp r)
     ({ s with h := res.1 },
